@@ -97,4 +97,20 @@ class Ctx:
 
 
 if __name__ == '__main__':
-    main()
+    try:
+        main()
+    except SystemExit:
+        raise
+    except BaseException:
+        # the machinery itself broke (import error, harness bug, interrupted build): the property is
+        # no longer shown to hold by this run -- say so in the agreed form instead of dying silently
+        pid = sys.argv[1] if len(sys.argv) > 1 else '?'
+        tb = traceback.format_exc()
+        try:
+            p = vlib.write_replay(pid, 1, {'kind': 'the check itself failed to run to completion; no input found on which the implementation violates the property',
+                                          'property': pid, 'harness_exception': tb[-4000:]})
+        except Exception:
+            p = '/dev/null'
+        print('VIOLATION property=%s replay=%s no-failing-input-found' % (pid, p))
+        sys.stderr.write(tb)
+        sys.exit(1)
